@@ -263,12 +263,16 @@ KANI_UNITS["C05"] = dict(
 KANI_UNITS["C03"] = dict(
     prop="C03", crate="varpulis-runtime",
     appends=[("crates/varpulis-runtime/src/sase.rs", "__vpv_c03", "contracts/kani/c03.rs")],
-    grade="K-bounded(predicate trees of depth <= 3 over 1-character aliases)", level="other", timeout=3000, harness_timeout=600, jobs=8,
-    functions=["varpulis-runtime/src/sase.rs: classify_predicate (Compare, CompareRef, And, Or, Not arms)"],
+    grade="K-bounded(predicate trees of depth <= 3; alias names fixed to \"b\" / \"other\")", level="other", timeout=3000, harness_timeout=600, jobs=8,
+    native_grade="bounded(native exhaustive enumeration: n <= 5 Kleene events with attribute in 0..=2, 6 comparison operators + no filter, every cap 1..=2^n)",
+    functions=["varpulis-runtime/src/sase.rs: classify_predicate (Compare, CompareRef, And, Or, Not arms) (Kani)",
+               "varpulis-runtime/src/sase.rs: enumerate_with_filter, evaluate_deferred_predicate (native enumeration)"],
     explanation=("classify_predicate decides WHICH Kleene filters are enumerated over subsets: cells over every leaf kind (constant comparison, comparison with the Kleene alias itself, "
-                 "comparison with another alias; alias characters symbolic) under Not / And / Or show it answers Inconsistent exactly when the predicate contains a self-reference. "
-                 "Predicate::Expr leaves (expr_references_alias) are not covered."),
-    assumptions=["bounded predicate shapes; Predicate::Expr leaves not covered"],
+                 "comparison with another alias) under Not / And / Or show it answers Inconsistent exactly when the predicate contains a self-reference. "
+                 "Predicate::Expr leaves (expr_references_alias) are not covered. enumerate_with_filter / evaluate_deferred_predicate go through FxHashMap captures and the ZDD iterator "
+                 "(outside both verifiers) and are covered by a BOUNDED STAND-IN run natively: for n <= 5 accumulated events, every self-referencing comparison filter and every cap, the "
+                 "number of matches is min(cap, number of non-empty ordered subsets whose consecutive members satisfy the filter); without a filter min(cap, 2^n - 1)."),
+    assumptions=["bounded predicate shapes; Predicate::Expr leaves not covered", "enumerate_with_filter: bounded native enumeration only; which subset a match stands for is not observable — counts only"],
 )
 
 
